@@ -110,7 +110,7 @@ BOMBS = [
     ("pathological-text", "1" * 45 + "x"), ("pathological-text", "1 " * 40 + "x"), ("pathological-text", "1.5" * 30 + "x"), ("pathological-text", "1+" * 40 + "x"),
     ("pathological-text", "9" * 60 + "**"), ("pathological-text", "1" * 40 + ")"), ("pathological-text", "a" * 60 + "!"), ("pathological-text", "(" * 40 + "1" * 40 + "x"),
     ("pathological-text", " " * 5000 + "x" + " " * 4000), ("pathological-text", "true" * 500 + "x"), ("pathological-text", "probe(" * 30 + "x"),
-    ("pathological-text", "[" + "1," * 3000 + "x"), ("pathological-text", "'" + "\\" * 2000), ("pathological-text", "1e" + "9" * 50 + "x"), ("many-moderate-ops", "+".join(["max([[0]*10**4]*10**4)"] * 380)),
+    ("pathological-text", "[" + "1," * 3000 + "x"), ("pathological-text", "'" + "\\" * 2000), ("pathological-text", "1e" + "9" * 50 + "x"), ("many-moderate-ops", "+".join(["len(max([[0]*10**4]*10**4))"] * 330)),
     ("many-moderate-ops", "+".join(["len([[0]*10**4]*10**4 == [[0]*10**4]*10**4)"] * 10) if False else "+".join(["([[0]*10**4]*10**4 == [[0]*10**4]*10**4)"] * 200)), ("int-digit-limit", "int('9'*4300) + 1"),
 ]
 
@@ -591,6 +591,21 @@ def run_case(ctx, n):
 # ------------------------------------------------------------------ bombs (parent side)
 def bomb_list(pctx):
     out = [(m, e, 0.5, None, "metabolize") for (m, e) in BOMBS]
+    moderate = "+".join(["([[0]*10**4]*10**4 == [[0]*10**4]*10**4)"] * 210)     # ~0.07 s per term, booleans add up cheaply
+    # the same long-running expression after calls that the engine rejected up-front / failed / latched on (state across calls)
+    for name, prelude in [("after-overlong-input", ["x" * 10001]), ("after-overlong-input-twice", ["1+" * 6000 + "1", " " * 20000]),
+                          ("after-failures", ["1/0", "foo", "(1).real"]),
+                          ("after-ros-latch-and-repair", ["1/0"] * 12 + ["1+1", "<repair>"]),
+                          ("after-logic-failure", [{"expr": "true and 1/0 > 0", "pathway": "KREBS_CYCLE"}])]:
+        out.append(("state-across-calls:" + name, moderate, 0.5, None, "metabolize", prelude))
+    for e in ["[10**5000]", "(1, 10**5000)", "(10**4300,)", "[1, 2] + [7**6000]", "[[10**5000]]", "(10**5000, 'a')"]:
+        out.append(("str-of-big-int-in-container", e, 0.5, None, "digest_glucose"))
+    for e in ["'%999999999d' % 1", "'%0999999999d' % 7", "'%*d' % (10**9, 1)", "'%.999999999f' % 1.5", "'%s' * 5000 % ((1,) * 5000)", "'%99999999s' % 'a'",
+              "len('%999999999d' % 1)"]:
+        out.append(("string-formatting", e, 0.5, None, "metabolize"))
+    for e in ["max([5000]*10000, key=factorial)", "min([4000]*10000, key=factorial)", "max([[0]*10**4]*10**4, key=len)", "max([10**4]*10**4, key=exp)",
+              "sum([factorial(5000)]*10**4) > 0", "max([2000]*10000, key=factorial) + max([2001]*10000, key=factorial)"]:
+        out.append(("higher-order-key", e, 0.5, None, "metabolize"))
     out.append(("str-of-big-int", "10**5000", 0.5, None, "digest_glucose"))
     out.append(("pow-tower", "9**9**9**9", 0.2, "GLYCOLYSIS", "digest_glucose"))
     out.append(("pow-tower", "1 < 9**9**9**9", 0.5, None, "metabolize"))
@@ -627,9 +642,10 @@ def bomb_list(pctx):
 
 
 def run_bomb(spec):
-    mech, expr, tau, pathway, entry = spec
+    mech, expr, tau, pathway, entry = spec[:5]
+    prelude = spec[5] if len(spec) > 5 else []
     bound = 10 * tau + 2.0
-    arg = json.dumps({"expr": expr, "tau": tau, "pathway": pathway, "entry": entry, "as_limit_gb": 2})
+    arg = json.dumps({"expr": expr, "tau": tau, "pathway": pathway, "entry": entry, "as_limit_gb": 2, "prelude": prelude})
     env = dict(os.environ)
     t0 = time.time()
     try:
@@ -649,10 +665,11 @@ def extra_parent(pctx):
     specs = bomb_list(pctx)
     with ThreadPoolExecutor(6) as ex:
         for spec, out in ex.map(run_bomb, specs):
-            mech, expr, tau, pathway, entry = spec
+            mech, expr, tau, pathway, entry = spec[:5]
             pctx.count("bombs_run")
             pctx.case = "bomb:%s" % mech
-            w = {"expression": expr, "timeout_seconds": tau, "pathway": pathway, "entry": entry, "child": out}
+            w = {"expression": expr, "timeout_seconds": tau, "pathway": pathway, "entry": entry, "child": out,
+                 "earlier_calls_on_the_same_engine": [p if not isinstance(p, str) or len(p) < 80 else p[:40] + "...<%d chars>" % len(p) for p in (spec[5] if len(spec) > 5 else [])]}
             if out["status"] == "timeout":
                 pctx.violation("no-return-within-bound:%s" % mech, "%s(%r) with timeout_seconds=%s did not return within %.0f s" % (entry, expr, tau, out["bound_s"]), w)
             elif out["status"] == "crash":
